@@ -66,7 +66,7 @@ def call_site_method(fn):
             if isinstance(v, ast.Name) and v.id == 'bounds_re':
                 found.append(node.func.attr)
     if len(found) != 1:
-        raise HarnessError(f'{fn.__name__}: expected exactly one use of bounds_re, found {found}')
+        return None      # the function does not (only) rely on the regular expression any more
     return found[0]
 
 
@@ -107,6 +107,17 @@ def grammar_checks(tier):
     s = z3.String('s')
     for fn in (cu.geometry_argument, cu.bounds_argument):
         method = call_site_method(fn)
+        # (0) strings that Python's float() would accept token-wise but that are not four numbers:
+        #     whatever the implementation looks like, none of them may be taken as bounds
+        for w in floatlike_non_numbers(upper, 4 if tier == 'quick' else 24):
+            nq += 1
+            kind, g = taken_as_bounds(fn, w)
+            if kind == 'box' and UPPER_PY.fullmatch(w) is None:
+                viol.append(dict(case=f'grammar:{fn.__name__}:{method}', label='text that is not exactly four comma-separated numbers is never taken as bounds',
+                                 inputs=dict(argument=w), detail=f'{fn.__name__}({w!r}) returned {g.wkt}',
+                                 how='z3 model of (four float()-parsable tokens) minus the reference grammar'))
+        if method is None:
+            continue        # no regular expression at the call site: the language inclusions cannot be posed
         acc = smtre.accepted_language(cu.bounds_re, method)
         # (1) accepted  subset-of  upper
         sol = z3.Solver()
@@ -207,6 +218,39 @@ def grammar_checks(tier):
             viol.append(dict(case='grammar:geojson', label='unreadable geometry is refused with ArgumentTypeError', inputs=dict(argument=bad),
                              detail=f'{kind}: {g}', how='bad geojson / missing file'))
     return viol, errs, samples, nq, time.time() - t0
+
+
+def floatlike_non_numbers(upper, want):
+    """Solver-chosen strings of four comma separated tokens that float() parses (nan, inf, infinity in any
+    letter case, signs, blanks, exponents) but that are outside the reference grammar."""
+    D = z3.Range('0', '9')
+
+    def ci(word):
+        return z3.Concat(*[z3.Union(z3.Re(c.lower()), z3.Re(c.upper())) for c in word])
+    ws = z3.Star(smtre._chars(smtre.ASCII_WS))
+    sign = z3.Option(z3.Union(z3.Re('-'), z3.Re('+')))
+    special = z3.Union(ci('nan'), ci('inf'), ci('infinity'))
+    plain = z3.Concat(z3.Plus(D), z3.Option(z3.Concat(z3.Re('.'), z3.Star(D))))
+    tok = z3.Concat(ws, sign, z3.Union(special, plain), ws)
+    cand = z3.Concat(tok, z3.Re(','), tok, z3.Re(','), tok, z3.Re(','), tok)
+    s = z3.String('cand')
+    sol = z3.Solver()
+    sol.set('timeout', 3000)
+    sol.add(z3.InRe(s, cand), z3.Not(z3.InRe(s, upper)), z3.Length(s) <= 16)
+    out = []
+    steer = [z3.Contains(s, z3.StringVal(t)) for t in ('nan', 'inf', 'INF', 'NaN', 'infinity', '-inf', 'n,', ',i')]
+    for k in range(want):
+        sol.push()
+        sol.add(steer[k % len(steer)])
+        r = sol.check()
+        if r == z3.sat:
+            w = _unescape(sol.model().eval(s, model_completion=True).as_string())
+            out.append(w)
+            sol.pop()
+            sol.add(s != z3.StringVal(w))
+        else:
+            sol.pop()
+    return out
 
 
 def _unescape(s):
@@ -459,7 +503,7 @@ def run(tier, seed=0, replay=None, procs=None, only=None):
         extra_violations=gv + fv, extra_errors=ge,
         extra_evidence=dict(regex_inclusion_and_witness_queries=nq, regex_solver_time_s=round(gt, 2), grammar_samples=gs,
                             bounds_re_pattern=cu.bounds_re.pattern,
-                            call_site_methods={f.__name__: call_site_method(f) for f in (cu.geometry_argument, cu.bounds_argument)}),
+                            call_site_methods={f.__name__: str(call_site_method(f)) for f in (cu.geometry_argument, cu.bounds_argument)}),
         bounds=dict(
             grammar='argument strings: every ASCII string (unbounded length) for the two language inclusions; '
                     'numeral-to-float and argument order on solver-chosen witnesses (length <= 40)',
